@@ -25,7 +25,7 @@ pub fn info() -> PropInfo {
         rule: "cases = strings and numeric character references. Enumerated: every string up to length N over {< > & ' \" # x ; 0 9 a A e-acute space}; ALL code points 0..0x110000 and 0x100 beyond in five spellings; a table of malformed references; generated: proptest Unicode strings rich in specials and reference look-alikes. Oracles: unescape(f(s)) == s for f in escape/partial_escape/minimal_escape, f(s) contains none of the characters that level removes and no '&' that does not start one of the five entities or a character reference, a string without '&' unescapes to itself borrowed, unescape(s) for arbitrary s equals an independent reference implementation (value or error), valid non-zero scalar -> exactly that char, everything else -> Err. Non-trivial = the string contains at least one of < > & ' \" / the code point is a valid scalar. An offset sweep places every special / reference form after 0..=130 plain bytes (ASCII or two-byte characters) and before 0..=40 more. Every reference body of up to 5 characters over {0,1,9,a,F,x,X,+,-,blank,_} after `&#` and after `&#x` is enumerated against the reference unescaper, and every upper/lower-case spelling of the five predefined names.",
         assumptions: &["built without the escape-html feature: the entity set is the five XML entities", "only a lowercase 'x' introduces a hexadecimal reference (XML)"],
         level: "exploration",
-        variants: &["full"],
+        variants: &["full", "html"],
     }
 }
 
@@ -106,6 +106,26 @@ pub fn ref_unescape_full(s: &str, custom: &[(&str, &str)], catch_all: Option<&st
     Ok(out)
 }
 
+/// a terminated reference by a name other than the five predefined ones: in a build with `escape-html`
+/// the HTML5 names are known too (documented), so what such a reference means is outside the statement
+fn has_other_name(s: &str) -> bool {
+    let mut rest = s;
+    while let Some(i) = rest.find('&') {
+        rest = &rest[i + 1..];
+        let end = rest.find(|c| c == ';' || c == '&');
+        if let Some(e) = end {
+            if rest.as_bytes()[e] == b';' {
+                let name = &rest[..e];
+                if !name.starts_with('#') && !matches!(name, "lt" | "gt" | "amp" | "apos" | "quot") {
+                    return true;
+                }
+            }
+        }
+    }
+    false
+}
+const HTML: bool = cfg!(feature = "html");
+
 /// every '&' in an escaped string must start one of the five entities or a character reference
 fn only_legal_ampersands(e: &str) -> bool {
     let b = e.as_bytes();
@@ -138,7 +158,11 @@ pub fn check(c: &Case) -> Verdict {
                 _ => None,
             };
             let a = quick_xml::escape::resolve_xml_entity(name);
-            let b = quick_xml::escape::resolve_predefined_entity(name);
+            let mut b = quick_xml::escape::resolve_predefined_entity(name);
+            if HTML && want.is_none() {
+                // with `escape-html` resolve_predefined_entity knows the HTML5 names (documented)
+                b = None;
+            }
             if a != want || b != want {
                 return Verdict::fail(format!("resolve_xml_entity({:?}) = {:?}, resolve_predefined_entity = {:?}, expected {:?}", name, a, b, want));
             }
@@ -167,7 +191,12 @@ pub fn check(c: &Case) -> Verdict {
             }
             // unescape of the string itself, against the reference
             let got = unescape(s);
+            let html_names = HTML && has_other_name(s);
+            if html_names {
+                v.classes.push("html-build-other-names-not-judged");
+            }
             match (&got, ref_unescape(s)) {
+                _ if html_names => {}
                 (Ok(g), Ok(w)) if **g == w => {}
                 (Err(_), Err(())) => v.classes.push("malformed-reference-rejected"),
                 (g, w) => return Verdict::fail(format!("unescape({:?}) = {:?}, reference says {:?}", s, g, w)),
@@ -189,7 +218,7 @@ pub fn check(c: &Case) -> Verdict {
                 "quot" => Some("\""),
                 _ => None,
             });
-            if with.as_ref().ok().map(|c| c.to_string()) != unescape(s).ok().map(|c| c.to_string()) {
+            if !html_names && with.as_ref().ok().map(|c| c.to_string()) != unescape(s).ok().map(|c| c.to_string()) {
                 return Verdict::fail(format!("unescape_with(predefined) differs from unescape on {:?}", s));
             }
             // a resolver with custom entities (consulted first) against the reference with the same table
